@@ -22,7 +22,10 @@ RULE = ("flow cases: population (1-30 taxa, 1-24 markers, ploidy 1/2/4, taxon na
         "optional session of 1-4 set_h2/set_H2 calls on the one live protocol object (h in (0,1] incl. 1 and 1e-6; the population itself, a "
         "sub-selection of it, new taxa of another size and allele frequency, or 600-4000 taxa stored pool after pool with pool-specific allele frequencies; interleaved with phenotype() and re-assignment of var_err / gpmod; "
         "every call judged for the population passed in that call), rng Generator/RandomState/global) x phenotype-frame variant "
-        "(as returned, rows shuffled, index reset, unbalanced after row deletion, renamed + junk columns, trait subset/reversed) x "
+        "(as returned, rows shuffled, index reset, unbalanced after row deletion, renamed + junk columns, trait subset/reversed; trait columns "
+        "float64 / float32 / integer scores on all or some traits; row index default, shuffled, filtered, string, non-unique, reversed, offset) x "
+        "1-4 estimate() calls on ONE long-lived MeanPhenotypicBreedingValue object (tables with and without group labels alternating, with / without "
+        "genotype matrix, each judged) x "
         "genotype matrix for alignment (None, same, permuted, subset, with never-phenotyped taxa, only unphenotyped, single candidate, parent "
         "lists and cohorts with taxa listed more than once - every occurrence must carry that taxon's mean -, phased or "
         "unphased, own group labels, taxa-grouped); every small trial, and a second trial on the same protocol object after re-assigning "
@@ -43,6 +46,7 @@ ASSUME = ["true genotypic value = intercept + dosage.u_a (+ heterozygous.u_d); i
           "TrueBreedingValue is judged against intercept + dosage.u_a only for purely additive models; with dominance only labels and "
           "taxon-permutation equivariance are judged",
           "a variance argument left None requests zero variance (the constructor's default)",
+          "means of float32 trait columns are accepted to 1e-6*scale (they may be averaged and returned in float32); integer columns are exact records",
           "G_E_Phenotyping.phenotype() and MeanPhenotypicBreedingValue.estimate() promise a result for every valid trial / table / cohort "
           "(also a cohort none of whose taxa was phenotyped): raising there is a violation; other calls that raise are counted under 'raised'",
           "a variance bias smaller than the reported minimum detectable ratio is invisible to C14.variance"]
@@ -666,10 +670,31 @@ def case_flow(ctx, c):
     has_grp_col = "taxa_grp" in df.columns
     vname, fr, tc, gc, tr = variant_of(g, df, tcols, has_grp_col)
     gname, gt = gen_gtobj(g, pg, None)
+    fr = fr.copy()
+    f32 = set()
+    dkind = ["float64", "float64", "integer scores", "integer scores on some traits", "float32", "float32 on some traits"][int(g.integers(6))]
+    if dkind != "float64":
+        cols = list(tr) if "some" not in dkind else [t for t in tr if g.random() < 0.5] or [tr[0]]
+        for t in cols:
+            if dkind.startswith("integer"):          # scores / counts: integer dtype, the records ARE these integers
+                fr[t] = numpy.rint(numpy.clip(fr[t].to_numpy(dtype=float), -1e15, 1e15)).astype(g.choice(["int64", "int32"]) if numpy.abs(fr[t]).max() < 2e9 else "int64")
+            else:
+                fr[t] = fr[t].to_numpy(dtype=float).astype("float32"); f32.add(t)
+    ikind = ["as is", "as is", "string index", "non-unique index", "reversed index", "offset index"][int(g.integers(6))]
+    if ikind == "string index":
+        fr.index = ["r%03d" % i for i in g.permutation(len(fr))]
+    elif ikind == "non-unique index":
+        fr.index = g.integers(0, 3, len(fr))
+    elif ikind == "reversed index":
+        fr.index = numpy.arange(len(fr))[::-1]
+    elif ikind == "offset index":
+        fr.index = numpy.arange(len(fr)) + int(g.integers(1, 50))
+    ctx.sumnote("estimate tables with trait dtype: %s" % dkind); ctx.sumnote("estimate tables with row index: %s" % ikind)
     labels = frame_labels(fr, tc)
     vals = fr[tr].to_numpy(dtype=float)
     means = FT.taxon_means(labels, [tuple(r) for r in vals])
-    colscale = [max(1.0, float(numpy.abs(vals[:, j]).max())) for j in range(len(tr))]
+    # a float32 column may be averaged and returned in float32: its tolerance is 1e-6*scale instead of 1e-9*scale
+    colscale = [max(1.0, float(numpy.abs(vals[:, j]).max())) * (1e3 if tr[j] in f32 else 1.0) for j in range(len(tr))]
     fgroups = None
     if gc is not None and pg.taxa_grp is not None:
         fgroups = dict(zip(labels, fr[gc].tolist()))
@@ -678,7 +703,8 @@ def case_flow(ctx, c):
     else:
         ecls = "group column " + ("named" if gc is not None else "not named")
     gcls = "no genotype matrix" if gt is None else "genotype matrix supplied"
-    wit = {"frame": fr.head(40).to_dict("list"), "frame rows": len(fr), "taxa_col": tc, "taxa_grp_col": gc, "trait_cols": tr, "variant": vname,
+    wit = {"frame": fr.head(40).to_dict("list"), "frame index": list(fr.index[:40]), "trait dtypes": [str(fr[t].dtype) for t in tr], "row index": ikind,
+           "frame rows": len(fr), "taxa_col": tc, "taxa_grp_col": gc, "trait_cols": tr, "variant": vname,
            "gtobj taxa": None if gt is None else gt.taxa, "gtobj groups": None if gt is None else gt.taxa_grp}
     ctx.case("estimate:%s | %s" % (vname, gname.split("/")[0].split(" + ")[0]), c, vname, gname, ecls, trivial=(n < 2))
     ctx.sumnote("estimate cases with %s" % ecls)
@@ -702,6 +728,35 @@ def case_flow(ctx, c):
     ctx.hook("MeanPhenotypicBreedingValue.estimate calls")
     kcls = ecls if "all missing" in ecls else "group labels present or group column not named"
     judge_estimate(ctx, bv, gt, means, fgroups, tr, colscale, kcls, gcls, coords, wit)
+    # ---- the same protocol object on further cohorts: tables with / without group labels, with / without genotype matrix
+    if gc is not None and g.random() < 0.5:
+        if fgroups is not None:
+            grpmap = {k_: int(v_) for k_, v_ in fgroups.items()}
+        else:
+            grpmap = {k_: 20 + i % 3 for i, k_ in enumerate(sorted(set(labels), key=repr))}
+        hist = ["table %s group labels, %s" % ("with" if fgroups is not None else "without", gcls)]
+        for step in range(int(g.integers(1, 4))):
+            grouped = bool(g.random() < 0.5)
+            t2 = fr.iloc[g.permutation(len(fr))].copy()
+            if g.random() < 0.5:
+                t2 = t2.reset_index(drop=True)
+            t2[gc] = [grpmap[k_] for k_ in frame_labels(t2, tc)] if grouped else None
+            gname2, gt2 = gen_gtobj(g, pg, None) if g.random() < 0.7 else ("no genotype matrix", None)
+            gcls2 = "no genotype matrix" if gt2 is None else "genotype matrix supplied"
+            hist.append("table %s group labels, %s" % ("with" if grouped else "without", gcls2))
+            k2 = "long-lived protocol object, later table " + ("with group labels" if grouped else "without group labels (column all missing)")
+            wit2 = dict(wit, frame=t2.head(40).to_dict("list"), history=list(hist), **{"gtobj taxa": None if gt2 is None else gt2.taxa,
+                                                                                      "gtobj groups": None if gt2 is None else gt2.taxa_grp})
+            ctx.sumnote("estimate calls on a long-lived protocol object: %s" % ("grouped table" if grouped else "ungrouped table"))
+            try:
+                bvl = bvp.estimate(t2, gt2)
+            except Exception as e:
+                ctx.ok("C14.alignment")
+                ctx.violation("C14.alignment", "MeanPhenotypicBreedingValue.estimate", "returns a matrix aligned to the genotype matrix (raised %s)" % type(e).__name__,
+                              k2, what="estimate() raised %s: %s after %s" % (type(e).__name__, str(e)[:160], hist), witness=wit2, coords=coords)
+                continue
+            ctx.hook("MeanPhenotypicBreedingValue.estimate calls")
+            judge_estimate(ctx, bvl, gt2, means, grpmap if grouped else None, tr, colscale, k2, gcls2, coords, wit2)
     # ---- invariance to the row order of the table
     fr2 = fr.iloc[g.permutation(len(fr))]
     if g.random() < 0.5:
